@@ -842,14 +842,30 @@ def run(ctx):
     _tlc.cleanup(rt)
 
 
+_REPLAY_CACHE = {}
+
+
+def _replay_cases(ctx, spec):
+    """cases of the thorough lattice (a superset of the quick one), emitted once per process"""
+    from cuqiverif import tlc as _tlc
+    if spec not in _REPLAY_CACHE:
+        r = ctx.tlc(spec, cfg="%s.thorough.cfg" % spec, workers=16, timeout=1500, extra_modules=("Conv.tla",) if spec != "Conv" else ())
+        ctx.model_must_hold(r, spec)
+        _REPLAY_CACHE[spec] = r.cases
+        _tlc.cleanup(r)
+
+    class _R:
+        cases = _REPLAY_CACHE[spec]
+    return _R
+
+
 def replay(ctx, case):
     """re-execute one stored case: re-emit from TLC (thorough lattice is a superset of the quick one) and re-check the matching case"""
-    from cuqiverif import tlc as _tlc
     kind = case.get("kind")
     if kind == "model":
         return run(ctx)
     if kind in ("conv1d", "conv2d", "named1d", "named2d", "random1d", "legacy"):
-        rc = ctx.tlc("Conv", cfg="Conv.thorough.cfg", workers=16, timeout=1500)
+        rc = _replay_cases(ctx, "Conv")
         cs = [c for c in rc.cases if c["n"] == case["n"] and (kind == "legacy" or (c["m"] == case["m"] and c["bc"] == case["bc"]))]
         legacy_seen = {}
         if kind in ("conv1d", "legacy"):
@@ -874,9 +890,8 @@ def replay(ctx, case):
                     tp = cuqi.testproblem.Deconvolution1D(dim=case["n"], PSF=P, BC=BC1DOC[case["bc"]], phantom=np.arange(1.0, case["n"] + 1))
                 _compare_operator(ctx, "deconv1d", "n=%d/m=%d/psf=random/bc=%s" % (case["n"], case["m"], case["bc"]), case,
                                   mat_from_J(jc["J"], P, case["n"]), tp.model, 1e-12)
-        _tlc.cleanup(rc)
         return
-    rt = ctx.tlc("TestProblems", cfg="TestProblems.thorough.cfg", workers=16, timeout=1500, extra_modules=("Conv.tla",))
+    rt = _replay_cases(ctx, "TestProblems")
     if kind == "problem":
         for c in rt.cases:
             if c["kind"] == "problem" and _pkey(c) == _pkey(case):
@@ -896,4 +911,3 @@ def replay(ctx, case):
     elif kind == "heatreq":
         table = {(c["N"], c["r"][0], c["r"][1], c["K"], tuple(c["u0"])): c for c in rt.cases if c["kind"] == "heat"}
         check_heat(ctx, table, case["N"], case["dx"], case["T"], {"matched": 0, "skipped": 0, "rk": set()})
-    _tlc.cleanup(rt)
